@@ -133,6 +133,9 @@ def corpus():
           mk_pg([0.0, 1.0, 2.0, 3.0], [10.0, 20.0, 30.0, 40.0],
                 [[None, None, None, None], [5.0, 6.0, 7.0, 8.0], [9.0, 10.0, 11.0, 12.5], [1.0, 2.0, 3.0, 4.0]],
                 ["affine", [2.0, 1.0, 0.5, -3.0]], "linear", False, {}, "corpus-pg-nan-margin-row"),
+          mk_pg([0.0, 1.0, 2.0, 3.0, 4.0], [10.0, 20.0, 30.0, 40.0, 50.0],
+                [[None, None, None, None, None], [None, None, 7.0, 8.0, 9.0], [None, 10.0, 11.0, 12.5, 13.0], [None, 2.0, 3.0, 4.0, 5.5],
+                 [None, 6.0, 7.0, 1.0, 2.5]], ["affine", [2.0, 1.0, 0.5, -3.0]], "linear", False, {}, "corpus-pg-nan-L-margin"),
           # known finding F1: Clough-Tocher overshoots the input range even with antialiasing
           mk_pg([-3.5, -2.5, -1.5, -0.5, 0.5, 1.5], [1.5, 2.5, 3.5, 4.5],
                 [[8.25, -0.5, 8.0, -2.0, -2.75, -0.25], [0.5, 6.75, -0.75, -1.25, 2.0, 5.5], [-6.5, -7.75, 3.25, -3.75, -4.5, -3.5],
@@ -185,6 +188,12 @@ def generate(rng, tier):
                     j_ = rng.choice([0, ne - 1])
                     for row in vals:
                         row[j_] = None
+            elif nanmargin < 0.18:        # NaN padding along two ADJACENT edges (L shape): hull vertices of the data are interior nodes
+                vals[0] = [None] * ne
+                for row in vals:
+                    row[0] = None
+                if nn > 3 and ne > 3 and rng.random() < 0.5:
+                    vals[1][1] = None
             elif nanmargin < 0.24:        # a cut corner (triangle of NaNs): the data hull excludes it
                 ci, cj = rng.choice([0, nn - 1]), rng.choice([0, ne - 1])
                 for i_ in range(nn):
@@ -330,7 +339,7 @@ def oracle(case, io):
                 continue
             if not inside and v is not None:
                 return f"value {v} outside the convex hull of the projected data points at ({x}, {y})"
-            if inside and v is None and all(c is not None for row in vals for c in row) and margin > 1e-6:
+            if inside and v is None and margin > 1e-6 and (not antialias or all(c is not None for row in vals for c in row)):
                 return f"NaN inside the convex hull of the projected data points at ({x}, {y})"
             if v is not None and (antialias or method in ("linear", "nearest")) and not (vmin - 1e-9 <= v <= vmax + 1e-9):
                 return f"value {v} outside the range [{vmin}, {vmax}] of the input"
